@@ -30,10 +30,10 @@ SURVEY_ALIAS = {
     "relevant": ["relevance", "bind::relevant"], "readonly": ["read_only", "bind::readonly"], "calculation": ["calculate", "bind::calculate"],
     "constraint": ["bind::constraint"], "required": ["bind::required"], "constraint_message": ["constraining_message", "bind::jr:constraintMsg"],
     "required_message": ["requiredmsg", "bind::jr:requiredMsg"], "label": ["caption"], "name": ["tag", "value"], "type": ["command"],
-    "appearance": ["body::appearance"], "repeat_count": ["count", "jr:count"], "image": ["media::image"], "audio": ["media::audio"],
-    "video": ["media::video"], "big-image": ["media::big-image"], "save_to": ["bind::entities:saveto"],
+    "appearance": ["body::appearance"], "repeat_count": ["count", "jr:count"], "image": ["media::image", "media::Image", "Media::IMAGE"], "audio": ["media::audio", "media::Audio"],
+    "video": ["media::video", "MEDIA::Video"], "big-image": ["media::big-image", "media::Big-Image"], "save_to": ["bind::entities:saveto"],
 }
-CHOICES_ALIAS = {"label": ["caption"], "name": ["value"], "list_name": ["list name"], "image": ["media::image"], "audio": ["media::audio"], "video": ["media::video"]}
+CHOICES_ALIAS = {"label": ["caption"], "name": ["value"], "list_name": ["list name"], "image": ["media::image", "media::Image"], "audio": ["media::audio", "Media::AUDIO"], "video": ["media::video", "media::Video"]}
 SETTINGS_ALIAS = {"form_id": ["id_string", "set_form_id"], "form_title": ["title", "set_form_title"]}
 KNOWN_SURVEY = set(SURVEY_ALIAS) | {"hint", "guidance_hint", "default", "trigger", "choice_filter", "parameters", "required", "constraint", "intent", "disabled"}
 TYPE_ALIAS = {"select_one": ["select one", "select1"], "select_multiple": ["select all that apply"], "integer": ["int"], "image": ["photo"],
